@@ -3,7 +3,7 @@ from harness import core, gen_deser as G
 from harness.deser_run import Producer, C_MODEL, C_SPEC
 
 NEEDED = ["Core/Json.v", "Core/Errors.v", "Core/Text.v", "Deser/Model.v", "Deser/Spec.v", "Deser/Run.v", "Deser/Unfold.v", "Deser/Loops.v", "Deser/Proofs.v", "Deser/Examples.v",
-          "Small/ConMerge.v", "Small/ConMergeProofs.v"]
+          "Small/ConMerge.v", "Small/ConMergeProofs.v", "Small/Aggregate.v", "Small/AggregateProofs.v"]
 
 
 def run(tier):
@@ -36,6 +36,7 @@ def run(tier):
     from harness import probes
     probes.stacked_constraints_probe(R, {"accept"})
     probes.flatten_probe(R)
+    probes.aggregate_probe(R, aspects=("dispatch",), n_classes=(40 if tier == "quick" else 300))
     return R.finish(
         rule="random universes (dataclass/NamedTuple/TypedDict, enums), random types of depth<=3 over the modelled grammar, "
              "data = generated-valid then 0-2 local mutations or atoms (incl. non-JSON objects); options random; a case is "
